@@ -5,6 +5,8 @@ from __future__ import annotations
 import random
 
 from .. import gen
+
+gen.WIDE_RATE = 0.004   # wide (~100 operation) instances: too costly here / not needed
 from ..drive import Run, gen_history_case
 from . import _snap
 
